@@ -187,3 +187,54 @@ def rule_arnoldi_seed(model: Model):
                "the basis is seeded with r/||r|| and the least-squares right-hand side is ||r|| e1" if ok else
                f"gmres seeds the Krylov basis with `{norm(seed[0])}` but builds the least-squares right-hand side as `{norm(scale[0])}`: the Arnoldi "
                "relation r0 = beta*q1 needs the same scalar, the norm of the seeded residual; after a restart (r != b) the correction is scaled wrongly")]
+
+
+def rule_enrich_width(model: Model, short: str):
+    """ENRICH-WIDTH (AMEn rank enrichment): after `u, R = QR(cat((u, reshape(B, [u.shape[0], -1])), 1))` the other factor is padded with
+    zero columns and multiplied by R^T; the number of zero columns must be the number of columns the block B contributes, i.e. the size of
+    B's last axis.  `B.shape[last]` discharges it identically; a rank-list entry does only if that entry is not re-assigned between the
+    statement that builds B and the read (the residual rank rz[k+1] is updated in between: the block still has the old width)."""
+    f = model.func(short)
+    obs = []
+    for n in ast.walk(f.node):
+        if not (isinstance(n, ast.Assign) and isinstance(n.targets[0], ast.Tuple) and isinstance(n.value, ast.Call) and norm(n.value.func).rsplit(".", 1)[-1] == "QR"
+                and n.value.args):
+            continue
+        cat = n.value.args[0]
+        if not (isinstance(cat, ast.Call) and norm(cat.func).rsplit(".", 1)[-1] in ("cat", "concat", "hstack") and cat.args and isinstance(cat.args[0], (ast.Tuple, ast.List))):
+            continue
+        blocks = [x for x in cat.args[0].elts if isinstance(x, ast.Call) and norm(x.func).endswith("reshape") and x.args and isinstance(x.args[0], ast.Name)]
+        if not blocks:
+            continue
+        B = blocks[0].args[0].id
+        bdef = max((m for m in ast.walk(f.node) if isinstance(m, ast.Assign) and isinstance(m.targets[0], ast.Name) and m.targets[0].id == B and m.lineno < n.lineno),
+                   key=lambda m: m.lineno, default=None)
+        pad_names = {x.id for z in ast.walk(f.node) if isinstance(z, ast.Call) and norm(z.func).endswith("zeros") and z.args and z.lineno > n.lineno
+                     for x in ast.walk(z.args[0]) if isinstance(x, ast.Name)}
+        width = min((m for m in ast.walk(f.node) if isinstance(m, ast.Assign) and isinstance(m.targets[0], ast.Name) and m.targets[0].id in pad_names
+                     and m.lineno > n.lineno), key=lambda m: m.lineno, default=None)
+        k = f"{short}:ENRICH-WIDTH:{len(obs)}"
+        if width is None or bdef is None:
+            obs.append(Ob("ENRICH-WIDTH", k, ERROR, model.where(f, n), norm(n)[:90], "padding width of the enrichment not recognised"))
+            continue
+        v = width.value
+        txt = norm(v).replace(" ", "")
+        if txt in (f"{B}.shape[2]", f"{B}.shape[-1]", f"{B}.shape[3]", f"{B}.size(-1)"):
+            obs.append(Ob("ENRICH-WIDTH", k, OK, model.where(f, width), norm(width), f"the padding has as many columns as the enrichment block `{B}`"))
+        elif isinstance(v, ast.Subscript) and isinstance(v.value, ast.Name):
+            stale = [m for m in ast.walk(f.node) if isinstance(m, ast.Assign) and isinstance(m.targets[0], ast.Subscript) and norm(m.targets[0]) == norm(v)
+                     and bdef.lineno > m.lineno]
+            # stores to the same entry inside the same loop body *before* the block is built change the entry, but the block's width was
+            # fixed by interfaces computed earlier (previous half-sweep): compare with the sizes the block was built from
+            same_loop_store = [m for m in ast.walk(f.node) if isinstance(m, ast.Assign) and isinstance(m.targets[0], ast.Subscript) and norm(m.targets[0]) == norm(v)
+                               and m.lineno < width.lineno and any(m in list(ast.walk(lp)) and width in list(ast.walk(lp)) for lp in ast.walk(f.node) if isinstance(lp, ast.For))]
+            if same_loop_store:
+                obs.append(Ob("ENRICH-WIDTH", k, VIOLATED, model.where(f, width), norm(width),
+                              f"{short}: the zero padding takes its width from `{norm(v)}`, which is re-assigned earlier in the same step "
+                              f"(`{norm(same_loop_store[-1])[:60]}`), while the enrichment block `{B}` still has the width of the interface computed in the previous "
+                              f"half-sweep; use `{B}.shape[-1]`. Whenever the update changes the rank (small leading modes) the product with R^T has mismatching shapes"))
+            else:
+                obs.append(Ob("ENRICH-WIDTH", k, OK, model.where(f, width), norm(width), "rank-list entry not re-assigned before the read"))
+        else:
+            obs.append(Ob("ENRICH-WIDTH", k, ERROR, model.where(f, width), norm(width), "padding width expression not in a recognised form"))
+    return obs
